@@ -376,8 +376,84 @@ def r6_static_type_matches_contents(ctx):
     ctx.floors[:] = [f for f in ctx.floors if f["rule"] != "R-C02-5"]
 
 
+def r7_one_index_for_every_variant(ctx, R="R-C01-7"):
+    ctx.rule(R, "a named field access `v.x` compiles to ONE positional Get(index), so on a union every variant must keep the field at the same position: in "
+                "type_queries::get_field_by_name the index found for a variant (get_field_from_source) is compared with the others — an equality test one of "
+                "whose operands derives from that index exists, and, when the test sits in the loop over the variants, every iteration that found the field "
+                "passes the test or the first-time store of the common index (no `continue` around it). Without it `v.x` on `A[x, y] | B[y, x]` reads `y` "
+                "from a B value — typed as `x`")
+    F = ctx.facts
+    key = "quiver_compiler::compiler::type_queries::get_field_by_name"
+    b = F.body(key)
+    fl = Flow(b, through_named=True)
+    THRU = ("Try::branch", "Option::ok_or_else", "Option::ok_or", "Option::unwrap", "Option::expect", "Option::map", "Clone::clone", "Deref::deref")
+    finds = [(bi, t) for bi, t in b.calls() if (t.get("callee") or "").endswith("get_field_from_source")]
+    if not finds:
+        # the lookup sits in a closure mapped over the variants: then some comparison of two (non-constant) usize values must exist in the function or
+        # its closures (the indices compared after collecting them), else nothing compares them at all
+        in_closures = [ck for ck in F.closures_of(key) if any((t.get("callee") or "").endswith("get_field_from_source") for _b, t in F.body(ck).calls())]
+        if not in_closures:
+            raise CheckError("%s: get_field_by_name no longer calls get_field_from_source — cannot decide" % R)
+        cmp_n = 0
+        for k2 in F.with_closures(key):
+            b2 = F.body(k2)
+            for _bi, _si, st in b2.stmts():
+                if st["k"] == "assign" and st["rv"]["k"] == "bin" and st["rv"]["op"] in ("Eq", "Ne"):
+                    pl, pr = op_place(st["rv"]["l"]), op_place(st["rv"]["r"])
+                    if pl and pr and "usize" in (b2.local_ty(pl["l"]) or "") and "usize" in (b2.local_ty(pr["l"]) or ""):
+                        cmp_n += 1
+            for _bi, t in b2.calls():
+                c = t.get("callee") or ""
+                if (c.split("::")[-1] in ("eq", "ne") and "PartialEq" in c) or c.split("::")[-1] in ("dedup", "dedup_by_key", "windows", "is_sorted"):
+                    cmp_n += 1
+        ctx.check(cmp_n > 0, R, key + "|indices-compared", "the indices found for the variants are compared",
+                  "get_field_by_name returns a field index without comparing the indices the variants store the field at: a named access on a union whose "
+                  "variants order their fields differently reads the wrong field", b.loc(0))
+        return
+    found_locals = {t["dest"]["l"] for _bi, t in finds}
+
+    def derives_from_found_index(o):
+        pl = op_place(o)
+        if not pl or "usize" not in (b.local_ty(pl["l"]) or ""):
+            return False
+        return bool(fl.backward({pl["l"]}, through_calls=THRU) & found_locals)
+    tests = []
+    for bi, si, st in b.stmts():
+        if st["k"] == "assign" and st["rv"]["k"] == "bin" and st["rv"]["op"] in ("Eq", "Ne"):
+            if derives_from_found_index(st["rv"]["l"]) or derives_from_found_index(st["rv"]["r"]):
+                tests.append(bi)
+    for bi, t in b.calls():
+        c = t.get("callee") or ""
+        if c.split("::")[-1] in ("eq", "ne") and "PartialEq" in c and len(t["args"]) >= 2 and any(
+                op_place(a) and (fl.backward({op_place(a)["l"]}, through_calls=THRU) & found_locals) for a in t["args"][:2]):
+            tests.append(bi)
+    for ck in F.closures_of(key):
+        cb = F.body(ck)
+        if any(st["k"] == "assign" and st["rv"]["k"] == "bin" and st["rv"]["op"] in ("Eq", "Ne") for _b, _s, st in cb.stmts()) and any(
+                "usize" in (l.get("ty") or "") for l in cb.locals[1:cb.mir["argc"] + 1]):
+            tests.append(-1)      # a comparison of indices in a closure handed to an adaptor (post-loop form)
+    ctx.check(bool(tests), R, key + "|indices-compared", "the index found for a variant is compared with the common index",
+              "get_field_by_name returns a field index without comparing the indices the variants store the field at: a named access on a union whose "
+              "variants order their fields differently reads the wrong field", b.loc(finds[0][0]))
+    # loop form: no iteration that found the field skips the test / first store
+    in_loop = [x for x in tests if x >= 0 and any(b.reaches(s2, x) for s2 in b.succ[x]) and any(b.reaches(x, f) and b.reaches(f, x) for f, _t in finds)]
+    if in_loop:
+        heads = [bi for bi, t in b.calls() if (t.get("callee") or "").endswith("Iterator::next") and all(b.reaches(bi, x) and b.reaches(x, bi) for x in in_loop)]
+        # the first-time store: an assignment of Some(found index) to the common-index option
+        stores = [bi for bi, si, st in b.stmts() if st["k"] == "assign" and st["rv"]["k"] == "agg" and st["rv"].get("variant") == "Some" and st["rv"]["ops"] and
+                  derives_from_found_index(st["rv"]["ops"][0])]
+        skip = None
+        for fbi, ft in finds:
+            for s2 in b.succ[fbi]:
+                skip = skip or explore(b, [s2], avoid=in_loop + stores, stop=err_blocks(b) | diverging_blocks(b), want="target", targets=heads) if heads else None
+        ctx.check(bool(heads) and skip is None, R, key + "|every-variant-compared", "every iteration that found the field passes the index test or the first-time store",
+                  "an iteration over the variants can find the field and go on to the next variant without comparing its index (%s): a later variant that stores "
+                  "the field elsewhere is not rejected" % path_desc(b, skip), b.loc(finds[0][0]))
+
+
 def run(ctx):
-    ctx.run_rules([r1_guarded_application, r2_unify_polarity, r3_declared_return, r4_check_elision_and_unions, r5_narrowing_belongs_to_its_binding, r6_static_type_matches_contents])
+    ctx.run_rules([r1_guarded_application, r2_unify_polarity, r3_declared_return, r4_check_elision_and_unions, r5_narrowing_belongs_to_its_binding, r6_static_type_matches_contents,
+                   r7_one_index_for_every_variant])
     ctx.note("NOT decided: soundness of narrowing, complement narrowing carve-outs, return-type dispatch tables, pattern analysis — properties of the "
              "type checker's output over all programs; correctness of the judgments themselves is C09")
     return (
